@@ -37,6 +37,8 @@ def main():
                         shutil.copy(path, os.path.join(d, "detected_replay" + os.path.splitext(path)[1]))
         finally:
             sh("git -C /repo checkout -- .")
+            # the runs above rewrote evidence/*.json from a modified tree: put the committed files back
+            sh("git -C %s checkout -- evidence" % ROOT)
     json.dump(res, open(rp, "w"), indent=1, sort_keys=True)
 if __name__ == "__main__":
     main()
